@@ -15,7 +15,7 @@ import math
 import re
 from fractions import Fraction
 
-from harness.core import Corr, Disagreement, Failure, TieBroken, coq_eval, zlit
+from harness.core import Corr, Disagreement, Failure, TieBroken, coq_eval, listlit, zlit
 from harness.translate.c37_scala_q import ScalaFrontQ
 
 ID = 'C37'
@@ -69,8 +69,7 @@ def generate(ctx):
     out = []
     # --- hardyWeinbergTest: validation and derived counts
     out.append(f.translate_prefix('stats', 'hardyWeinbergTest', 4, 'hwe_args', 'nA', ['n', 'nAB', 'nA']))
-    _rx(r'val LH = LeveneHaldane\(n, nA\)\s*\n\s*val pVal = if \(oneSided\) LH\.rightMidP\(nAB\) else LH\.exactMidP\(nAB\)\s*\n\s*Array\(LH\.getNumericalMean / n, pVal\)',
-        pkg, 'hardyWeinbergTest tail')
+    # (the tail - which mid-p is returned - is translated below as hwe_pvalue)
     # --- chiSquaredTest: the statistic
     out.append(f.translate_prefix('stats', 'chiSquaredTest', 4, 'chisq_statistic', 'chiSquare', ['chiSquare', 'ad', 'bc']))
     _rx(r'Array\(pchisqtail\(chiSquare, 1\), ad / bc\)', pkg, 'chiSquaredTest result')
@@ -142,6 +141,41 @@ def generate(ctx):
     il, _ = f.translate_expr_text(m.group(4), envp, 'LeveneHaldane')
     out.append(f'Definition prob_index (nA mode nAB : Z) : option (bool * bool * Z * Z) :=\n  bind {outside} (fun outside =>\n  bind {right} (fun right =>\n'
                f'  bind {ir} (fun ir =>\n  bind {il} (fun il =>\n  ret (outside, right, ir, il))))).')
+    # --- class LeveneHaldane with its callees NOT opaque: probability, cumulativeProbability/2 (all four branches, slice bounds),
+    #     cumulativeProbability/1, survivalFunction, rightMidP, leftMidP over the class fields (streams = index -> forced element).
+    _rx(r'class LeveneHaldane\(\s*val n: Int,\s*val nA: Int,\s*val mode: Int,\s*pRU: LazyList\[Double\],\s*pLU: LazyList\[Double\],\s*pN: Double,\s*rng: RandomGenerator,?\s*\)',
+        lh, 'class LeveneHaldane fields')
+    _rx(r'new LeveneHaldane\(n, nA, mode, pRU, pLU, pN, rng\)', lh, 'constructor call in LeveneHaldane.apply')
+    _rx(r'def apply\(n: Int, nA: Int\): LeveneHaldane = LeveneHaldane\(n, nA, null\)', lh, 'LeveneHaldane.apply/2')
+    fields = {'nA': 'Int', 'mode': 'Int', 'pRU': 'Stream', 'pLU': 'Stream', 'pN': 'Double'}
+    fb = '(nA mode : Z) (pRU pLU : stream) (pN : Q)'
+    fa = 'nA mode pRU pLU pN'
+    for k in [k for k in f.externs if k[0] in ('survivalFunction', 'probability', 'cumulativeProbability')]:
+        del f.externs[k]
+
+    def method(name, params, coq, ret_decl=r'(?:: Double)?'):
+        sig = ', '.join(f'{p}: Int' for p in params)
+        mm = _rx(r'\n  (?:override )?def %s\(%s\)%s =[ \t]*\n(.*?)\n[ \t]*\n' % (name, re.escape(sig), ret_decl), lh, f'method {name}/{len(params)}')
+        e, ty = f.translate_expr_text(mm.group(1), dict(fields, **{p: 'Int' for p in params}), 'LeveneHaldane')
+        if ty != 'Double':
+            raise TieBroken('scala-translator', f'{name}/{len(params)} is not Double')
+        out.append(f'Definition {coq} {fb} {" ".join(f"({p} : Z)" for p in params)} : option Q :=\n  {e}.')
+        f.externs[(name, len(params))] = (f'({coq} {fa})', ['Int'] * len(params), 'Double')
+    method('probability', ['nAB'], 'LH_probability')
+    # cumulativeProbability/2 calls nothing; /1 and survivalFunction call /2 - translate /2 first, under its own key
+    method('cumulativeProbability', ['n0', 'n1'], 'LH_cdf2')
+    method('cumulativeProbability', ['n1'], 'LH_cdf1')
+    method('survivalFunction', ['n0'], 'LH_survival')
+    method('rightMidP', ['nAB'], 'LH_rightMidP')
+    method('leftMidP', ['nAB'], 'LH_leftMidP')
+    # --- hardyWeinbergTest: which mid-p is returned
+    m = _rx(r'val LH = LeveneHaldane\(n, nA\)\s*\n\s*val pVal = ([^\n]+)\n\s*Array\(LH\.getNumericalMean / n, pVal\)', pkg, 'hardyWeinbergTest tail')
+    f.externs[('rightMidP', 1)] = ('pv_rightMidP', ['Int'], 'Double')
+    f.externs[('exactMidP', 1)] = ('pv_exactMidP', ['Int'], 'Double')
+    e, ty = f.translate_expr_text(re.sub(r'\bLH\.', '', m.group(1)), {'oneSided': 'Boolean', 'nAB': 'Int'}, 'stats')
+    if ty != 'Double':
+        raise TieBroken('scala-translator', 'hardyWeinbergTest pVal is not Double')
+    out.append(f'Definition hwe_pvalue (pv_rightMidP pv_exactMidP : Z -> option Q) (oneSided : bool) (nAB : Z) : option Q :=\n  {e}.')
     text = f'''(* GENERATED by harness/props/C37.py from {SRC_PKG} and {SRC_LH} - do not edit.
    Double = exact rational Q, Int = 32-bit, exceptions and non-finite results = None. Opaque callees are Section variables. *)
 From HailV Require Import Common.Prelude CallPacking.Model Stats.Model.
@@ -310,6 +344,42 @@ def _lh_weight(nA, nB, k):
     return Fraction(2 ** k, math.factorial((nA - k) // 2) * math.factorial(k) * math.factorial((nB - k) // 2))
 
 
+def _lh_pmf(n, nA):
+    """the Levene-Haldane distribution of the number of heterozygotes given n samples and nA minor alleles (exact)"""
+    nB = 2 * n - nA
+    w = {k: _lh_weight(nA, nB, k) for k in range(nA % 2, nA + 1, 2)}
+    tot = sum(w.values())
+    return {k: x / tot for k, x in w.items()}
+
+
+def _py_mode(n, nA):
+    """the documented mode formula, exactly: 2 round((x - parity) / 2) + parity with x = (nA + 1)(nB + 1) / (2n + 3)"""
+    nB, par = 2 * n - nA, nA % 2
+    x = Fraction((nA + 1) * (nB + 1), 2 * n + 3)
+    return 2 * math.floor((x - par) / 2 + Fraction(1, 2)) + par
+
+
+def _midp_refs(pmf, x):
+    """(P(X = x), P(X <= x), P(X > x), right mid-p, left mid-p, two-sided mid-p) by their definitions"""
+    p = pmf.get(x, Fraction(0))
+    cdf = sum((v for k, v in pmf.items() if k <= x), Fraction(0))
+    surv = sum((v for k, v in pmf.items() if k > x), Fraction(0))
+    two = sum((v for v in pmf.values() if v < p), Fraction(0)) + sum((v for v in pmf.values() if v == p), Fraction(0)) / 2
+    return [p, cdf, surv, surv + p / 2, cdf - p / 2, two]
+
+
+METHOD_NAMES = ['probability', 'cumulativeProbability/1', 'survivalFunction', 'rightMidP', 'leftMidP', 'exactMidP']
+
+
+def _where(x, mode):
+    return 'at-mode' if x == mode else 'below-mode' if x < mode else 'above-mode'
+
+
+def _frac(v):
+    """parsed `option (Z * Z)` -> Fraction | None"""
+    return None if v is None else Fraction(v[1][0], v[1][1])
+
+
 def oracle(ctx, budget):
     """There is NO executable implementation of C37 in this sandbox (Scala only). The search below evaluates the definitions
     regenerated from the Scala text against independent exact references (Python fractions) and reports the first differing
@@ -349,8 +419,46 @@ def oracle(ctx, budget):
                      f'match pLU_next_val {n} {nA} {nB} {k} 1%Q with Some x => Some (({QPAIR}) x) | None => None end, lh_mode {n} {nA} {nB} {nA % 2})')
     for n, nA in means:
         exprs.append(f'match numericalMean {n} {nA} {2 * n - nA} with Some x => Some (({QPAIR}) x) | None => None end')
+    # class methods of LeveneHaldane (probability, cumulativeProbability/1/2, survivalFunction, rightMidP, leftMidP, exactMidP) on
+    # instances (n, nA) at points x - always including the mode itself, its neighbours (both parities) and the ends of the support
+    states = [(n, nA) for n in range(1, 7) for nA in range(0, n + 1)]
+    while len(states) < ctx.scale(45, 300) * budget:
+        n = rng.choice([rng.randrange(7, 25), rng.randrange(25, 70)])
+        states.append((n, rng.choice([rng.randrange(0, n + 1), n, n - 1, n // 2])))
+    method_pts = []
+    for n, nA in states:
+        m = _py_mode(n, nA)
+        xs = set(range(-1, nA + 1)) if nA <= 12 else {-1, 0, 1, nA - 1, nA, m - 2, m - 1, m, m + 1, m + 2} | {rng.randrange(0, nA + 1) for _ in range(3)}
+        method_pts.append((n, nA, sorted(x for x in xs if -1 <= x <= nA)))
+    grid_pts = []
+    for n, nA in states:
+        m = _py_mode(n, nA)
+        if n <= 5:
+            pts = [(n0, n1) for n0 in range(-1, nA + 1) for n1 in range(-2, nA + 1)]
+        else:
+            pts = [(m, nA), (m - 1, nA), (m - 2, nA), (m - 2, m), (m, m + 2), (m - 1, m + 1), (-1, m), (-1, m - 1), (-1, nA), (m + 2, nA), (m - 4, m - 2)]
+            pts += [tuple(sorted((rng.randrange(-1, nA + 1), rng.randrange(-1, nA + 1)))) for _ in range(6)]
+            pts = [(a, b) for a, b in pts if -1 <= a and b <= nA]
+        grid_pts.append((n, nA, sorted(set(pts))))
+    hwp = [(r, h, v, os_) for r in range(0, 4) for h in range(0, 4) for v in range(0, 4) for os_ in (True, False) if r + h + v > 0]
+    while len(hwp) < ctx.scale(160, 600) * budget:
+        r, h, v = (rng.choice([rng.randrange(0, 6), rng.randrange(0, 30)]) for _ in range(3))
+        if r + h + v > 0:
+            hwp.append((r, h, v, rng.random() < 0.6))
+        if rng.random() < 0.5:      # data sitting exactly at the Hardy-Weinberg expectation: n_het equal to the mode
+            n = rng.randrange(2, 50)
+            nA = rng.randrange(0, n + 1)
+            m = _py_mode(n, nA)
+            if 0 <= m <= nA and n - m - (nA - m) // 2 >= 0:
+                hwp.append(((nA - m) // 2, m, n - m - (nA - m) // 2, True))
+    for n, nA, xs in method_pts:
+        exprs.append(f'lh_methods {n} {nA} {listlit([zlit(x) for x in xs])}')
+    for n, nA, pts in grid_pts:
+        exprs.append(f'lh_cdf2_grid {n} {nA} {listlit(["(%s, %s)" % (zlit(a), zlit(b)) for a, b in pts])}')
+    for r, h, v, os_ in hwp:
+        exprs.append(f'match hwe_model {r} {h} {v} {"true" if os_ else "false"} with Some (a, b) => Some (({QLIST}) a ++ ({QLIST}) b) | None => None end')
     try:
-        mv = coq_eval(ctx, HEADER.replace(' Stats.Pipeline', ''), exprs, shard=200, label='oracle')
+        mv = coq_eval(ctx, HEADER, exprs, shard=200, label='oracle')
     except Exception as ex:  # noqa: BLE001 - generated file missing when the translator failed closed
         ctx.notes.append(f'model-level search not available: {str(ex)[:200]}')
         return [], {'evaluations': 0, 'distinct_nontrivial': 0, 'rule': 'no executable implementation (Scala); model-level search unavailable'}
@@ -413,7 +521,61 @@ def oracle(ctx, budget):
             fails.append(Failure('engine-model:lh-mean', f'MODEL of LeveneHaldane.getNumericalMean (regenerated from the Scala text with its Int/Double typing, not '
                                  f'executed): n={n}, nA={nA}, nB={2 * n - nA} gives {m}, the mean nA*nB/(2n-1) is {exp_m} (het_freq_hwe = mean / n)',
                                  {'kind': 'mean', 'n': n, 'nA': nA, 'nB': 2 * n - nA}, str(exp_m), m))
-    stats = {'evaluations': len(exprs), 'distinct_nontrivial': len(set(tables)) + len(set(hw)) + len(set(lh)) + len(set(means)),
+    at_mode = {'at-mode': 0, 'below-mode': 0, 'above-mode': 0}
+    for n, nA, xs in method_pts:
+        m = some(mv[pos]); pos += 1
+        case0 = {'kind': 'lh-methods', 'n': n, 'nA': nA}
+        if m is None:
+            fails.append(Failure('engine-model:lh-state', f'MODEL of LeveneHaldane.apply (not executed): no class instance for n={n}, nA={nA}', case0, 'a class instance', None))
+            continue
+        wf, mode, rows = m
+        pmf = _lh_pmf(n, nA)
+        if not wf or mode != _py_mode(n, nA):
+            fails.append(Failure('engine-model:lh-class-invariant', f'MODEL of LeveneHaldane.apply (not executed): for n={n}, nA={nA} the instance (mode {mode}) violates the class '
+                                 f'invariant (mode = documented formula {_py_mode(n, nA)} in the support with nA\'s parity; streams start at 1.0, are non-negative, reach both '
+                                 'ends of the support; pN = their sum - 1): the theorems about the class methods do not apply', case0, True, wf))
+        for x, row in zip(xs, rows):
+            refs = _midp_refs(pmf, x)
+            at_mode[_where(x, mode)] += 1
+            for name, got, ref in zip(METHOD_NAMES, row, refs):
+                g = _frac(got)
+                if g != ref:
+                    fails.append(Failure(f'engine-model:lh-{name}:{_where(x, mode)}', f'MODEL of LeveneHaldane.{name} (regenerated from the Scala text with its branches and slice bounds, exact '
+                                         f'sums, not executed): for n={n}, nA={nA} (mode {mode}) {name}({x}) = {g}, the definition gives {ref}'
+                                         + (f' (a probability must lie in [0, 1])' if g is not None and not 0 <= g <= 1 else ''),
+                                         dict(case0, x=x, method=name, mode=mode), str(ref), str(g)))
+    for n, nA, pts in grid_pts:
+        m = some(mv[pos]); pos += 1
+        pmf = _lh_pmf(n, nA)
+        mode = _py_mode(n, nA)
+        for (n0, n1), got in zip(pts, m or [None] * len(pts)):
+            ref = sum((v for k, v in pmf.items() if n0 < k <= n1), Fraction(0))
+            g = _frac(got)
+            if g != ref:
+                branch = 'empty' if (n0 >= n1 or n0 >= nA or n1 < nA % 2) else 'right-of-mode' if n0 > mode else 'from-mode' if n0 == mode else 'left-of-mode' if n1 < mode else 'straddles-mode'
+                fails.append(Failure(f'engine-model:lh-cumulativeProbability/2:{branch}', f'MODEL of LeveneHaldane.cumulativeProbability(n0, n1) (regenerated from the Scala text, exact sums, not '
+                                     f'executed): for n={n}, nA={nA} (mode {mode}) cumulativeProbability({n0}, {n1}) = {g}, P({n0} < X <= {n1}) = {ref}',
+                                     {'kind': 'lh-cdf2', 'n': n, 'nA': nA, 'n0': n0, 'n1': n1, 'mode': mode}, str(ref), str(g)))
+    n_at_mode_hw = 0
+    for r, h, v, os_ in hwp:
+        m = some(mv[pos]); pos += 1
+        n, nA = r + h + v, h + 2 * min(r, v)
+        refs = _midp_refs(_lh_pmf(n, nA), h)
+        exp = (Fraction(nA * (2 * n - nA), (2 * n - 1) * n), refs[3] if os_ else refs[5])
+        got = None if m is None else (Fraction(m[0], m[1]), Fraction(m[2], m[3]))
+        mode = _py_mode(n, nA)
+        n_at_mode_hw += h == mode
+        if got != exp:
+            fails.append(Failure(f'engine-model:hardy-weinberg-test:{"one-sided" if os_ else "two-sided"}:{_where(h, mode)}',
+                                 f'MODEL of hardyWeinbergTest (regenerated from the Scala text, exact sums, not executed): hardy_weinberg_test({r}, {h}, {v}, one_sided={os_}) = '
+                                 f'(het_freq_hwe, p_value) = {got}, the definitions give {exp} (n_het = {h}, mode of the Levene-Haldane distribution = {mode})'
+                                 + (' - a p-value above 1' if got is not None and got[1] > 1 else ''),
+                                 {'kind': 'hwe-p', 'counts': [r, h, v], 'one_sided': os_, 'mode': mode}, [str(e) for e in exp], None if got is None else [str(g) for g in got]))
+    ctx.notes.append(f'class-method points by position: {at_mode}; hardy_weinberg_test inputs with n_het = mode: {n_at_mode_hw} of {len(hwp)}')
+    stats = {'evaluations': len(exprs), 'distinct_nontrivial': len(set(tables)) + len(set(hw)) + len(set(lh)) + len(set(means))
+             + sum(len(xs) for _, _, xs in method_pts) + sum(len(p) for _, _, p in grid_pts) + len(set(hwp)),
+             'histograms': {'class_method_points': at_mode, 'hwe_inputs_with_n_het_at_mode': n_at_mode_hw, 'hwe_inputs': len(hwp),
+                           'cdf2_interval_points': sum(len(p) for _, _, p in grid_pts)},
              'rule': 'NO executable implementation exists here (Scala only): generated definitions (vm_compute) vs exact references computed with Python '
                      'fractions on small-scope + seeded random 2x2 tables, genotype-count triples and (n, nA, nAB) points; non-trivial = distinct inputs'}
     return fails, stats
@@ -437,6 +599,21 @@ def replay(ctx, doc):
             n, nA, nB = case['n'], case['nA'], case['nB']
             out['model'] = coq_eval(ctx, HEADER, [f'match numericalMean {n} {nA} {nB} with Some x => Some (({QPAIR}) x) | None => None end'])[0]
             out['expected'] = str(Fraction(nA * nB, 2 * n - 1))
+        elif case.get('kind') == 'lh-methods':
+            n, nA, x = case['n'], case['nA'], case.get('x', 0)
+            out['model'] = coq_eval(ctx, HEADER, [f'lh_methods {n} {nA} [{zlit(x)}]'])[0]
+            out['methods'] = METHOD_NAMES
+            out['expected'] = [str(f) for f in _midp_refs(_lh_pmf(n, nA), x)]
+        elif case.get('kind') == 'lh-cdf2':
+            n, nA, n0, n1 = case['n'], case['nA'], case['n0'], case['n1']
+            out['model'] = coq_eval(ctx, HEADER, [f'lh_cdf2_grid {n} {nA} [({zlit(n0)}, {zlit(n1)})]'])[0]
+            out['expected'] = str(sum((v for k, v in _lh_pmf(n, nA).items() if n0 < k <= n1), Fraction(0)))
+        elif case.get('kind') == 'hwe-p':
+            (r, h, v), os_ = case['counts'], case['one_sided']
+            out['model'] = coq_eval(ctx, HEADER, [f'match hwe_model {r} {h} {v} {"true" if os_ else "false"} with Some (a, b) => Some (({QLIST}) a ++ ({QLIST}) b) | None => None end'])[0]
+            n, nA = r + h + v, h + 2 * min(r, v)
+            refs = _midp_refs(_lh_pmf(n, nA), h)
+            out['expected'] = [str(Fraction(nA * (2 * n - nA), (2 * n - 1) * n)), str(refs[3] if os_ else refs[5])]
         elif case.get('kind') == 'recorded':
             out['note'] += '; recorded example: re-run the check to compare'
     except Exception as ex:  # noqa: BLE001
